@@ -148,3 +148,64 @@ def C01_comment_before_multiply(case, params):
     if r["kind"] == "denotation-differs" and all(d[0] in ("order", "comment-order") for d in r["diffs"]):
         return _order_only_mt_imp(c2)
     return False
+
+
+def C01_imp_card_invented(case, params):
+    """F-C01-imp-card-invented: a file that gives no importance at all (no IMP parameter, no IMP card) is written
+    with additional data cards 'IMP:<p> 0.0 ...' (MontePy's default importance), which the file read does not have.
+    Feature: no 'imp' outside comments; every difference is an additional IMP card.  Ablation: the same file with an
+    'imp:<p>=0' parameter... is not needed: the feature and the failure shape decide."""
+    import rt, spec
+    c = case["case"]
+    W = c.get("width", 80)
+    for l in c["text"].split("\n"):
+        x = l.rstrip("\r").expandtabs(8)[:W]
+        if spec.is_comment_line(x):
+            continue
+        if re.search(r"imp", x.split("$")[0], re.I):
+            return False
+    r = rt.c01_check(c)
+    if r is None or r.get("kind") != "denotation-differs":
+        return False
+    for d in r["diffs"]:
+        if d[0] != "card count":
+            return False
+        try:
+            a, b = eval(d[2]), eval(d[3])
+        except Exception:
+            return False
+        extra = list(b)
+        for x in a:
+            if x in extra:
+                extra.remove(x)
+        if len(b) - len(a) != len(extra) or not extra or not all(re.match(r"^imp:", x, re.I) for x in extra):
+            return False
+    return True
+
+
+def C01_amp_in_comment_text(case, params):
+    """F-C01-amp-in-comment-text: a cell card whose last line is '... $ text &' (the comment TEXT ends in '&'): the
+    dangling-'&' cleanup of Cell.format_for_mcnp_input (3480888) takes the '&' of the comment for a continuation mark
+    and drops it.  Feature: a '$' comment ending in '&' in the cell block.  Ablation: the same file without that '&'."""
+    import rt
+    c = case["case"]
+    W = c.get("width", 80)
+    lines = c["text"].split("\n")
+    out = []
+    hit = False
+    for l in lines:
+        x = l.rstrip("\r").expandtabs(8)[:W]
+        if "$" in x and x.rstrip().endswith("&"):
+            cr = "\r" if l.endswith("\r") else ""
+            out.append(x.rstrip()[:-1].rstrip() + cr)
+            hit = True
+        else:
+            out.append(l)
+    if not hit:
+        return False
+    r = rt.c01_check(dict(c, text="\n".join(out)))
+    if r is None:
+        return True
+    if r["kind"] == "denotation-differs" and all(d[0] in ("order", "comment-order") for d in r["diffs"]):
+        return _order_only_mt_imp(dict(c, text="\n".join(out)))
+    return False
